@@ -38,7 +38,7 @@ def main():
                   'source_commits': [], 'add_only': True},
         'engines': [{'name': 'coq-model', 'path': '/verif/coq',
                      'serves_properties': [c['property_id'] for c in checks],
-                     'kind_free_text': 'Gallina model of cirbo + theorems (Coq 8.16.1); translators regenerate table-like fragments from /repo; '
+                     'kind_free_text': 'Gallina model of cirbo + theorems (Coq 8.16.1); 26 fail-closed translators regenerate the tables AND the algorithms of the library from /repo on every run, each regenerated function proved equal to the hand-written model; '
                                        'vm_compute correspondence against the implementation; direct oracles for failing-input search'}],
         'checks': checks,
         'not_applicable': na,
